@@ -357,6 +357,36 @@ def run_history(cfg, events, only_iter=None):
                 raise Violation("node_inserted_after_position_not_yielded", (kind, x, tm))
             if what == "noyield" and later:
                 raise Violation("node_inserted_before_position_yielded", (kind, x, tm))
+    # (e) once edits have stopped: fresh recursive walks describe the current graph, and keep doing so when the body
+    # is detached from / attached to its node (by every way the attribute container offers)
+    if w.body is not None and only_iter is None:
+        ifn = w.nodes["IF"]
+        h = len(events)
+        detach = ("del", "pop", "clear")[h % 3]
+        saved = list(ifn.attributes.values())
+        for phase in ("attached", "detached", "attached_again"):
+            want_fwd = _flat(w) if phase != "detached" else list(w.ref["main"])
+            want_rev = _flat(w, reverse=True) if phase != "detached" else list(w.ref["main"])[::-1]
+            try:
+                got_fwd = [n.name for n in w.g.all_nodes()]
+                got_rev = [n.name for n in traversal.RecursiveGraphIterator(w.g, reverse=True)]
+            except Exception as e:  # noqa: BLE001
+                raise Violation("recursive_walk_raises_after_edits_stopped", (phase, detach, type(e).__name__, str(e)[:80])) from None
+            if ifn.graph is w.g and (got_fwd != want_fwd or got_rev != want_rev):
+                raise Violation("recursive_walk_differs_from_the_current_graph", (phase, detach, got_fwd, want_fwd))
+            if phase == "attached":
+                if detach == "del":
+                    del ifn.attributes["then_branch"]
+                elif detach == "pop":
+                    ifn.attributes.pop("then_branch")
+                else:
+                    ifn.attributes.clear()
+            elif phase == "detached":
+                if detach == "clear":
+                    for a in saved:
+                        ifn.attributes.add(a)
+                else:
+                    ifn.attributes.add(ir.AttrGraph("then_branch", w.body))
     return [[y for y, _ in st["yields"]] for st in w.iters]
 
 
